@@ -1488,6 +1488,7 @@ output_3byte_vex_opcode (OrcCompiler *p, const OrcX86Insn *xinsn)
         case ORC_X86_INSN_TYPE_IMM8_MMX_REG_REV:
         case ORC_X86_INSN_TYPE_REG8_REGM:
         case ORC_X86_INSN_TYPE_REG16_REGM:
+        case ORC_X86_INSN_TYPE_IMM8_AVX_SSEM:
           byte2 |= orc_vex_get_rex (p, xinsn->src[0], 0, xinsn->dest);
           break;
         case ORC_X86_INSN_TYPE_MEM:
@@ -1507,7 +1508,6 @@ output_3byte_vex_opcode (OrcCompiler *p, const OrcX86Insn *xinsn)
           byte2 |= orc_vex_get_rex (p, 0, 0, xinsn->src[0]);
           break;
         case ORC_X86_INSN_TYPE_SSEM_SSE:
-        case ORC_X86_INSN_TYPE_IMM8_AVX_SSEM:
           byte2 |= orc_vex_get_rex (p, xinsn->dest, 0, xinsn->src[0]);
           break;
         case ORC_X86_INSN_TYPE_IMM8_SSEM_AVX:
